@@ -8,9 +8,9 @@ def tlv_mod_stubs(u, t):
     """mod tlv with the real types and contract-only copies of the codec functions."""
     u.raw("pub mod tlv {\nuse super::*;\nuse crate::bytes::Buf;\n")
     u.item(t, "TlvEntry", "struct")
-    u.raw("impl Clone for TlvEntry {\n #[verifier::external_body]\n fn clone(&self) -> (r: Self) ensures r == *self { unimplemented!() }\n}\n")
+    u.derived(t, "TlvEntry", "Clone", "tlv")
     u.item(t, "SerializedTlvStream", "struct")
-    u.raw("impl Clone for SerializedTlvStream {\n #[verifier::external_body]\n fn clone(&self) -> (r: Self) ensures r == *self { unimplemented!() }\n}\n")
+    u.derived(t, "SerializedTlvStream", "Clone", "tlv")
     u.spec("tlv_dec.rs", shared=True)
     u.spec("tlv_get.rs", shared=True)
     u.spec("tlv_enc_iface.rs", shared=True)
